@@ -215,9 +215,14 @@ def add_scheme_S(spec, event='e', send_subset=False, eventless_twin=False, count
                 tid = len(trans)
                 act = "P('ac', %d)" % tid
                 if send_subset and tid % 3 == 0:
-                    act += "; send('i%d', v=%d)" % (tid, tid)
+                    act += "; P('send', 'i%d'); send('i%d', v=%d)" % (tid, tid, tid)
                 trans.append({'source': s, 'target': t, 'event': event, 'guard': 'G(%d, event)' % tid,
                               'action': act, 'priority': 0, 'tid': tid})
+    if send_subset:
+        for i, st in enumerate(spec['states']):
+            key = 'on_entry' if i % 2 == 0 else 'on_exit'
+            if st.get(key):
+                st[key] += "; P('send', '%s_%s'); send('%s_%s')" % (key[3:5], st['name'], key[3:5], st['name'])
     if counter:
         spec['preamble'] = 'n = 0'
         for tr in trans:
